@@ -1,4 +1,5 @@
 import BdModel.Sched.Model
+import BdModel.Sched.Retry
 import Driver.Util
 /-
   Deterministic chooser over the fine system for the correspondence runs: after every harness
@@ -92,6 +93,9 @@ def stName : NStatus → String
   | .none => "not started" | .running => "running" | .error => "failed"
   | .cancel => "canceled" | .success => "finished" | .skipped => "skipped"
 
+def stOfCode : Nat → NStatus
+  | 1 => .running | 2 => .error | 3 => .cancel | 4 => .success | 5 => .skipped | _ => .none
+
 def ovName : SStatus → String
   | .none => "not started" | .running => "running" | .error => "failed"
   | .cancel => "canceled" | .success => "finished"
@@ -169,9 +173,25 @@ def run (lines : List String) : List String := Id.run do
     | "node" :: rest => nodes := nodes ++ [parseNode rest]
     | ["run"] =>
       let k := mkCase caseWs nodes
-      let s := quiesce k 10000 (init k.cfg)
-      sess := some { k := k, s := s }
-      out := out ++ [snapLine k.cfg s]
+      let ini := kv caseWs "init"
+      if ini == "" then
+        let s := quiesce k 10000 (init k.cfg)
+        sess := some { k := k, s := s }
+        out := out ++ [snapLine k.cfg s]
+      else
+        -- retry mode: the run starts from what `setupRetry` makes of the recorded vector
+        let codes := (natList ini).toArray
+        let rcs := (natList (kv caseWs "irc")).toArray
+        let dcs := (natList (kv caseWs "idc")).toArray
+        let es : List (Nat × Nat) := nodes.zipIdx.flatMap (fun (nd, i) => nd.1.deps.map (fun d => (d, i)))
+        let s0 := BdModel.Retry.initRetry k.cfg.n es (fun i => stOfCode (codes.getD i 0)) (fun i => rcs.getD i 0)
+                    (fun i => dcs.getD i 0) BdModel.Retry.resetSet
+        let r := List.range k.cfg.n
+        out := out ++ ["init st=" ++ "|".intercalate (r.map (fun i => stName (s0.nd i).status)) ++
+                       " rc=" ++ joinNat (r.map (fun i => (s0.nd i).retry))]
+        let s := quiesce k 10000 s0
+        sess := some { k := k, s := s }
+        out := out ++ [snapLine k.cfg s]
     | ["op", "stop"] =>
       match sess with
       | some se =>
